@@ -26,11 +26,13 @@ RULE = ("(termination cause, life point, role, schedule) cases in the controlled
 CLIENT = {
     "connecting": ["refused"],
     "wait-cea": ["peer-fin", "peer-rst", "non-cea"],
-    "open-idle": ["local-close", "peer-dpr", "peer-fin", "peer-rst", "peer-timeout", "host-unreachable"],
+    "open-idle": ["local-close", "peer-dpr", "peer-dpr-busy", "peer-fin", "peer-rst", "peer-timeout", "host-unreachable"],
     "open-partial-inbound": ["peer-fin", "peer-rst", "peer-timeout"],      # the peer dies in the middle of a message
     "open-inbound-queued": ["local-close", "peer-dpr", "peer-fin", "peer-rst"],
     "open-outbound-queued": ["local-close", "peer-dpr", "peer-fin", "peer-rst"],
-    "open-consumer-blocked": ["local-close", "peer-dpr", "peer-fin", "peer-rst"],
+    "open-consumer-blocked": ["local-close", "peer-dpr", "peer-dpr-busy", "peer-fin", "peer-rst"],
+    # two application threads loop in get_message(); a message is delivered right before the connection ends
+    "open-two-consumers": ["local-close", "peer-dpr", "peer-fin", "peer-rst", "peer-timeout"],
     "closing": ["peer-fin", "peer-rst"],
 }
 SERVER = dict(CLIENT)
@@ -47,7 +49,7 @@ def cases(draw):
     cause = draw(st.sampled_from(table[point]))
     sched = draw(conc.schedules(250))
     return {"role": role, "point": point, "cause": cause, "sched": sched, "lines": draw(st.booleans()) if sched else False,
-            "n_queued": draw(st.integers(1, 4)), "holds": draw(conc.holds())}
+            "n_queued": draw(st.integers(1, 4)), "holds": draw(conc.holds(bias="two-consumers" if point == "open-two-consumers" else None))}
 
 
 def run_one(case):
@@ -57,6 +59,7 @@ def run_one(case):
     vs = []
     with World(role=role, apps=["s6a"], line_preempt=case["lines"], max_steps=800000, line_holds=conc.wants_line_holds(case.get("holds"))) as w:
         consumer_ct = None
+        consumer_cts = []
         # ---------------- reach the life point (fair schedule)
         if point == "connecting":
             w.net.connect_policy = "manual"
@@ -78,8 +81,19 @@ def run_one(case):
             if not w.open_connection():
                 return [V("harness: connection setup failed", "harness/setup", w.state())], info
             if point == "open-consumer-blocked":
-                consumer_ct = w.call("consumer", lambda: got.append(w.d.get_message()))
+                consumer_ct = w.call("consumer-0", lambda: got.append(w.d.get_message()))
                 w.run(lambda: consumer_ct.state == "blocked", 1.0)
+            if point == "open-two-consumers":
+                def loop():
+                    while True:
+                        m = w.d.get_message()
+                        if m is None:
+                            return
+                        got.append(m)
+                # consumer-0 is already waiting; consumer-1 calls get_message() only after the generated delays are in place
+                consumer_cts = [w.call("consumer-0", loop)]
+                w.run(lambda: all(c.state == "blocked" for c in consumer_cts), 1.0)
+                two_loop = loop
             if point == "closing":
                 w.call("closer", lambda: w.d.close())
                 w.run(lambda: any(m["cmd"] == 282 for m in w._safe_sent()), 5.0)
@@ -104,6 +118,14 @@ def run_one(case):
             whole = app_request(3100, 4100, dest_realm=LOCAL["realm"], payload=bytes(40 * case["n_queued"]))
             w.feed(whole[:len(whole) // 2])
             w.run(lambda: False, 0.3)
+        if point == "open-two-consumers":
+            consumer_cts.append(w.call("consumer-1", two_loop))
+            w.run(lambda: False, 0.01)
+            for i in range(case["n_queued"] % 3):
+                w.feed(app_request(3200 + i, 4200 + i, dest_realm=LOCAL["realm"]))
+            if case["n_queued"] % 3:
+                # the message is handed over (the consumers are on their way through the delivery API) before the connection ends
+                w.run(lambda: False, [0.02, 0.05, 0.2][case["n_queued"] % 3])
         if point == "open-inbound-queued":
             for i in range(case["n_queued"]):
                 w.feed(app_request(3000 + i, 4000 + i, dest_realm=LOCAL["realm"]))
@@ -119,6 +141,10 @@ def run_one(case):
             w.feed(peer_dpr(0x0d0d0d0d, 0x0e0e0e0e))
         elif cause == "peer-fin":
             w.net.peer_fin(sock)
+        elif cause == "peer-dpr-busy":
+            # a DPR with another Disconnect-Cause (BUSY); the peer then waits for the node to act instead of dropping TCP
+            from ..world import peer_dpr as _pd
+            w.feed(_pd(0x0D0D0D01, 0x0D0D0D02, cause=1 + case["n_queued"] % 2))
         elif cause == "peer-rst":
             w.net.peer_rst(sock)
         elif cause == "peer-timeout":
@@ -163,6 +189,9 @@ def run_one(case):
                 vs.append(V("the node releases its sockets", f"sockets-open/{tag}/{role}", f"open fds {open_socks}, selector registrations {regs}"))
             if consumer_ct is not None and consumer_ct.state != "finished":
                 vs.append(V("application calls blocked waiting for a message return", f"consumer-blocked/{tag}/{role}", str(consumer_ct)))
+            stuck = [c.name for c in consumer_cts if c.state != "finished"]
+            if stuck:
+                vs.append(V("application calls blocked waiting for a message return", f"consumer-blocked/{tag}/{role}", str(stuck)))
             app_live = [(n, b) for n, b in live if n.startswith(("submitter", "closer", "app-start"))]
             if app_live:
                 vs.append(V("local API calls return", f"api-call-blocked/{tag}/{role}", str(app_live)))
@@ -234,12 +263,37 @@ def _collect(shard, seed, n):
     return col
 
 
+def _rendezvous_sweep(args):
+    """Bounded exhaustive sweep of a two-consumer rendezvous: consumer-0 (already waiting, woken by a message delivered right before
+    the end) pauses at its n1-th source line inside get_postprocess_recv_message() / get_message() until the state machine thread
+    signals again (the close); consumer-1 (just entering get_message()) pauses at its n2-th line until consumer-0 has cleared the
+    event - every (n1, n2) up to the bound."""
+    role, cause, a, nmax = args
+    common.bootstrap()
+    from .. import refdict
+    refdict.all_classes()
+    col = Collector(PID, RULE)
+    for n1 in range(1, nmax + 1):
+        for n2 in range(1, 7):
+            case = {"role": role, "point": "open-two-consumers", "cause": cause, "sched": [], "lines": False, "n_queued": 1,
+                    "holds": [["consumer-0", "line:" + ("get_postprocess_recv_message" if a == 0 else "get_message"), n1, 2.0, "PSM", "event.set"],
+                              ["consumer-1", "line:get_message", n2, 2.0, "consumer-0", "event.clear"]]}
+            vs, info = run_one(case)
+            col.record(case, vs, nontrivial=True, classes=["rendezvous-sweep", "point=open-two-consumers", "cause=" + cause, "role=" + role])
+    return col
+
+
 def main(ctx):
     col = common.run_shards(_collect, 8 if ctx.quick else 16, ctx.seed, n=80 if ctx.quick else 2500)
+    nmax = 12 if ctx.quick else 20
+    jobs = [(role, cause, a, nmax) for role in ("client", "server") for cause in ("peer-fin", "local-close", "peer-dpr", "peer-rst") for a in (0, 1)]
+    for part in common.pmap(_rendezvous_sweep, jobs):
+        col.merge(part)
+    col.extra["rendezvous_sweep"] = f"{len(jobs)} scenarios x {nmax}x6 (n1, n2) pairs"
     for path, rec in common.load_replays(PID):
         col.record(rec["case"], run_case(rec["case"]), nontrivial=True, classes=["replay"])
     ctx.required_classes = ["prefix-with-switch", "role=client", "role=server"] + ["point=" + p for p in set(CLIENT) | set(SERVER)] + \
-                           ["cause=" + c for c in ("local-close", "peer-dpr", "peer-fin", "peer-rst", "refused", "peer-timeout", "host-unreachable")]
+                           ["cause=" + c for c in ("local-close", "peer-dpr", "peer-fin", "peer-rst", "refused", "peer-timeout", "host-unreachable", "peer-dpr-busy")]
     ctx.assumptions = ["controlled world; 'terminates' is judged within 30 virtual seconds of the cause under fair completion",
                        "a conformant peer answers the node's DPR with a DPA for cause=local-close; for life point 'closing' the peer "
                        "disconnects instead of answering"]
